@@ -5,19 +5,8 @@
 WT="$1"; D="$2"
 git -C "$WT" checkout -- . || exit 2
 git -C "$WT" apply "$D/patch.diff" || { echo "CONFIRM apply=FAILED"; exit 1; }
-# suite with the change (rerun load-induced misses alone, twice at most)
+# suite with the change (baseline_check.sh reruns load-induced misses serially)
 "$(dirname "$0")/baseline_check.sh" "$WT" > "$D/suite_with_patch.log" 2>&1
-for round in 1 2 3; do
-  MISS=$(grep "NOT PASSING" "$D/suite_with_patch.log" | sed 's/.*NOT PASSING: //' | sed 's/^[a-z_]*:://' | sort -u)
-  [ -z "$MISS" ] && break
-  STILL=""
-  for t in $MISS; do
-    short=${t#*::}
-    if (cd "$WT" && cargo nextest run --offline --tool-config-file pb:/w/lib/nextest.toml --profile pb --test-threads 1 -E "test(=$t) | test(=$short)" >/dev/null 2>&1); then :; else STILL="$STILL $t"; fi
-  done
-  if [ -z "$STILL" ]; then echo "stable_pass: rerun alone: all passing" > "$D/suite_with_patch.log"; else
-    : > "$D/suite_with_patch.log"; for t in $STILL; do echo "  NOT PASSING: x::$t" >> "$D/suite_with_patch.log"; done; fi
-done
 if grep -q "NOT PASSING" "$D/suite_with_patch.log"; then SUITE=FAIL; else SUITE=pass; fi
 echo "CONFIRM suite_with_patch=$SUITE"
 CARGO_TARGET_DIR="$WT/target" sh "$D/demo/run.sh" "$WT" > "$D/demo_with_patch.confirm.log" 2>&1; RC1=$?
